@@ -82,10 +82,11 @@ def obligations(tier):
         T += [('{"?":?,"?":[?]}', 0, 0, DUP | REORD | UTF8 | PRES | MULTI, 0),
               ('{"?":1,"?":2,"?":3}', REORD, 0, DUP | UTF8 | PRES, 0),
               ('{"?":1,"??":2,"?":3}', REORD | DUP | UTF8 | PRES, 0, 0, 0),
-              ('{"%EE%80?":[?],"%F0%90%80?":2}', REORD, 0, UTF8 | PRES, 0),
-              ('["\\u????",{"\\uD8??\\uDC??":?}]', 0, 0, PRES | UTF8, 0),
+              ('{"%EE??":[?],"%F0%90%80?":2}', REORD, 0, UTF8 | PRES, 0),
+              ('["\\u????"]', 0, 0, PRES | UTF8, 0),
+              ('{"\\uD8??\\uDC??":1}', 0, 0, PRES | UTF8, 0),
               ('[?,{"?":"?"}]', 0, 0, ALL & ~(CINT | CFLT | MULTI | SPCOL | SPCOM), 0),
-              ('{"a":{"?":1,"?":[{"?":?}]},"?":-0}', REORD | CINT, 0, DUP | CFLT, 2),
+              ('{"a":{"?":1,"?":[{"b":?}]},"b":-0}', REORD | CINT, 0, DUP | CFLT, 2),
               ('[1?,-?,?.5,1e?]', 0, 0, PRES | MULTI, 3),
               (' [ ? , { "?" : "?" } , ? ] ', 0, 0, MULTI | SPCOM | SPCOL | REORD, 0)]
     for i, (t, on, off, sym, ind) in enumerate(T):
@@ -109,7 +110,7 @@ def obligations(tier):
     wrap("full/n=3", 3, 0, "", 2, 0, 0, UTF8 | DUP)
     wrap("tmpl/3", 0, 0, '{"?":1, "?":"?"}' if q else '{"?":?, "?":"?"}', 2, 0, 0, DUP | (0 if q else CINT | UTF8))
     if not q:
-        wrap("tmpl/4", 0, 0, ' [ {"?":?,"?":[?]} , ? ] ', 1, 0, 0, SPCOL | SPCOM | MULTI | PRES, 1)
+        wrap("tmpl/4", 0, 0, ' [ {"?":?,"a":[?]} , 1 ] ', 1, 0, 0, SPCOM | MULTI, 1)
         wrap("tmpl/5", 0, 0, '{"??":1,"?":{"?":2}}', 2, 0, 0, DUP | UTF8)
     only = os.environ.get("VERIF_ONLY")  # development aid: run the obligations whose id contains this text
     if only:
